@@ -220,6 +220,8 @@ class Arc2D(object):
                 which the arc will be reflected. THIS VECTOR MUST BE NORMALIZED.
             origin: A Point2D representing the origin from which to reflect.
         """
+        if self.is_circle:  # start and end coincide: three points do not define it
+            return Arc2D(self.c.reflect(normal, origin), self.r)
         return Arc2D.from_start_mid_end(self.p2.reflect(normal, origin),
                                         self.midpoint.reflect(normal, origin),
                                         self.p1.reflect(normal, origin))
